@@ -185,7 +185,12 @@ fn split_half(ns: &[Nlri], mp4: bool) -> Result<(Vec<Nlri>, Option<(bool, Safi)>
 }
 
 /// Returns (the BGP PDU, its path-attribute section as encoded).
-pub fn encode_update(u: &Upd) -> Result<(Vec<u8>, Vec<u8>), String> {
+pub fn encode_update(u: &Upd) -> Result<(Vec<u8>, Vec<u8>), String> { encode_update_with(u, &[], &[]) }
+
+/// `encode_update` with a caller-chosen AS_PATH attribute *value* (4-octet segments) and further
+/// already encoded path attributes (e.g. COMMUNITIES) placed after the MED. With two empty slices
+/// this is byte for byte `encode_update`. Only used when the UPDATE announces something.
+pub fn encode_update_with(u: &Upd, as_path_value: &[u8], extra_attrs: &[u8]) -> Result<(Vec<u8>, Vec<u8>), String> {
     let (a_conv, a_fam, a_mp) = split_half(&u.ann, u.mp4)?;
     let (w_conv, w_fam, w_mp) = split_half(&u.wd, u.mp4)?;
     let mut wdr = vec![];
@@ -194,10 +199,11 @@ pub fn encode_update(u: &Upd) -> Result<(Vec<u8>, Vec<u8>), String> {
     let mut pas = vec![];
     if !u.ann.is_empty() {
         attr(0x40, 1, &[0], &mut pas); // ORIGIN IGP
-        attr(0x40, 2, &[], &mut pas); // AS_PATH empty (same bytes for 2- and 4-octet sessions)
+        attr(0x40, 2, as_path_value, &mut pas); // AS_PATH (empty: same bytes for 2- and 4-octet sessions)
         if !a_conv.is_empty() { attr(0x40, 3, &[10, 0, 0, 1], &mut pas); }
         let med = u.attr.to_be_bytes();
         attr(0x80, 4, &med, &mut pas); // MED carries the attribute id
+        pas.extend_from_slice(extra_attrs);
     }
     if let Some((v6, safi)) = a_fam {
         let (afi, s) = afi_safi(v6, safi);
